@@ -337,7 +337,8 @@ def s_both(draw):
     if trk_status and D.getbits(mb, 1, 1) == 0:
         trk_status = False  # bit 12 is a heading magnitude bit: needs heading status
     mach_status = u(0, 5) > 0
-    mach_raw = u(60, 250) if mach_status else 0
+    # (Mach numbers near zero and an indicated airspeed of exactly 0 kt - a stationary aircraft - are legal contents of both registers)
+    mach_raw = (u(60, 250) if u(0, 4) else draw(st.sampled_from([1, 2, 3, 5, 7, 12, 30]))) if mach_status else 0
     if mach_status:
         mb = P(P(mb, 24, 24, 1), 25, 34, mach_raw)
     if trk_status:
@@ -349,7 +350,9 @@ def s_both(draw):
                 cas = isa.mach2cas(mach_raw * 2.048 / 512, alt_ref * isa.FT) / isa.KTS
                 ias = int(round(cas)) + (draw(st.sampled_from([0, 3, -3, 15, -15, 18, -18])) if mode == "consistent" else draw(st.sampled_from([23, -23, 40, -40, 80])))
             else:
-                ias = u(0, 500)
+                ias = u(0, 500) if u(0, 5) else draw(st.sampled_from([0, 0, 1, 500]))
+            if mach_status and mach_raw < 60 and u(0, 1):
+                ias = draw(st.sampled_from([0, 0, 1, 2, 5]))
             mb = P(P(mb, 13, 13, 1), 14, 23, max(0, min(500, ias)))
     if u(0, 5):
         v = u(-187, 187)
@@ -364,7 +367,7 @@ def s_both(draw):
         mb = P(P(P(P(mb, 1, 1, 1), 12, 12, 1), 13, 13, 0), 14, 23, u(1, 500))
     elif spoil == "only60":  # break a BDS 5,0 rule only: track status (bit 12) cleared over track bits while heading status is set
         mb = P(P(P(P(mb, 1, 1, 1), 12, 12, 0), 13, 13, 1), 14, 23, u(1, 500))
-    return {"mb": mb, "spd_ref": draw(st.one_of(gen.ufloat(0, 600), st.sampled_from([0.0, 450.0]))), "trk_ref": draw(gen.ufloat(0, 360)), "alt_ref": alt_ref,
+    return {"mb": mb, "spd_ref": draw(st.one_of(gen.ufloat(0, 600), gen.ufloat(0, 600), gen.ufloat(0, 15), st.sampled_from([0.0, 450.0, 0, 1.0]))), "trk_ref": draw(gen.ufloat(0, 360)), "alt_ref": alt_ref,
             "df": 21, "ac": 0, "ctx_head": draw(gen.ubits(27)), "ctx_addr": draw(gen.ubits(24)), "spoil": spoil, "hc": draw(gen.hexcase)}
 
 
